@@ -102,6 +102,7 @@ var docFaults = []faultSpec{
 	{"VariablesInAllowedPosition", "list-variable-with-nullable-items", siteVar},
 	{"VariablesInAllowedPosition", "nullable-boolean-at-include", siteSel},
 	{"ValuesOfCorrectType", "oneOf-nullable-variable", siteVar},
+	{"ValuesOfCorrectType", "oneOf-nullable-variable-with-default", siteVar},
 	{"ValuesOfCorrectType", "int-from-string", siteVal},
 	{"ValuesOfCorrectType", "int-from-float", siteVal},
 	{"ValuesOfCorrectType", "int-from-boolean", siteVal},
@@ -1284,6 +1285,22 @@ func (g *docGen) varFault(lt *TypeRef, fl uint8) bool {
 	case "oneOf-nullable-variable":
 		if fl&flOneOf != 0 && g.opp() {
 			declare(NullableT(lt))
+			return true
+		}
+	case "oneOf-nullable-variable-with-default":
+		// a default value does not make the variable non-null: null can still be SUPPLIED for it
+		if fl&flOneOf != 0 && g.opp() {
+			saved, savedFn, savedFault := g.lit.b, g.lit.varFn, g.lit.faultFn
+			g.lit.b, g.lit.varFn, g.lit.faultFn = make([]byte, 0, 32), nil, nil
+			g.lit.value(NullableT(lt), 1, flConst|flNoNull)
+			def := string(g.lit.b)
+			g.lit.b, g.lit.varFn, g.lit.faultFn = saved, savedFn, savedFault
+			if def == "" || def == "null" {
+				return false
+			}
+			g.vars = append(g.vars, &varDecl{name: "zzBad", typ: NullableT(lt), def: def, hasDef: true, anyDef: true})
+			g.used |= 1 << uint(len(g.vars)-1)
+			g.w("$zzBad")
 			return true
 		}
 	}
